@@ -95,6 +95,41 @@ def r8_maxwell_polarity(ctx):
             rep.note(f"C08.R8: {C}: signs not determinate (l_q: {sorted(s_l)}, damper column: {sorted(s_d)})")
 
 
+def r9_angle_homogeneity(ctx):
+    """Revolute's angle is a function of the ratio y/x of two projections of the body-2 joint axis e_a2 on body-1 axes: it does
+    not change when the (non-orthonormal, off-manifold) basis A_IJ2 is scaled.  Its stated derivative l_q must then be of
+    degree 0 under A_IJ2 -> s A_IJ2 (A_IJ2_q2 -> s A_IJ2_q2) as well, and likewise under A_IJ1 -> s A_IJ1 (engine K6)."""
+    from ..degrees import Interp, fmt, is_ground, TOP
+    from fractions import Fraction as F
+    rep = ctx.rep
+    ci = ctx.model.cls("Revolute")
+    fns = dict(ci.methods)
+    for scaled in ("2", "1"):
+        attr = {"self.angle0": F(0), "self.n_full_rotations": F(0), "self.previous_quadrant": F(0), "self.plane_axes": F(0), "self.axis": F(0)}
+        for b in ("1", "2"):
+            d = F(1) if b == scaled else F(0)
+            attr[f"self.A_IJ{b}"] = d
+            attr[f"self.A_IJ{b}_q{b}"] = d
+        for name, want in (("l", F(0)), ("l_q", F(0))):
+            if name not in fns:
+                raise AnalysisError(f"Revolute.{name} vanished")
+            it = Interp(fns, attr_degs=attr)
+            d = it.run(name, {"t": F(0), "q": F(0)}, {})
+            C = f"{ci.rel}:Revolute.{name}"
+            what = f"under A_IJ{scaled} -> s A_IJ{scaled}"
+            if it.violations:
+                v = it.violations[0]
+                rep.bad("C08.R9", C, v.node, f"{what}: {v.msg} in `{norm_src(v.node)[:90]}`; the angle / its derivative must not depend on the length of the joint axes",
+                        f"{ci.rel}:{getattr(v.node, 'lineno', 0)}")
+            elif d == want:
+                rep.ok("C08.R9", C, f"{what}: degree {fmt(d)} (angle and its q-derivative are functions of the direction only)")
+            elif is_ground(d):
+                rep.bad("C08.R9", C, f"{name}: degree {fmt(d)} {what}", f"{what} `{name}` scales with degree {fmt(d)} although the angle `l` has degree 0: the derivative is exact only for "
+                        f"orthonormal joint bases, i.e. on the constraint manifold (a normalisation such as / (x**2 + y**2) is missing)", f"{ci.rel}:{fns[name].lineno}")
+            else:
+                rep.note(f"C08.R9: degree of Revolute.{name} {what} not inferred ({fmt(d)})")
+
+
 def run(ctx):
     rep = ctx.rep
     rep.rule("C08.R1", "chain-rule coverage of force-element / actuator derivatives (K5)", 40)
@@ -112,6 +147,8 @@ def run(ctx):
                 raise AnalysisError(f"{ci.rel}:{cname}.{name} vanished")
             twobody.check_typing(rep, "C08.R6", f"{ci.rel}:{cname}.{name}", ci.rel, fn)
         twobody.check_polarity(rep, "C08.R7", ci, chain)
+    rep.rule("C08.R9", "Revolute: angle and its q-derivative are homogeneous of degree 0 in each joint basis (K6)", 4)
+    r9_angle_homogeneity(ctx)
     rep.rule("C08.R8", "MaxwellElement: damper-coordinate column has the opposite sign of the l_q term", 2)
     r8_maxwell_polarity(ctx)
     rep.rule("C08.R5", "Leibniz image of the primal's factor monomials equals the derivative routine's monomials (K10)", 8)
@@ -248,6 +285,10 @@ MUTANTS += [
          old="        h_q[:, 0] += self.subsystem.W_l(t, q[1:]).reshape(self._nu) * self.k", new="        h_q[:, 0] -= self.subsystem.W_l(t, q[1:]).reshape(self._nu) * self.k", expect="C08.R8"),
     dict(id="c08-r8-2", what="MaxwellElement.q_dot_q: damper entry added instead of subtracted", file=MX,
          old="        q_dot_q[0] -= self.k / self.eta", new="        q_dot_q[0] += self.k / self.eta", expect="C08.R8"),
+]
+MUTANTS += [
+    dict(id="c08-seed", canary=True, what="[seeded by sub-agent] Revolute.l_q drops the normalisation 1 / (x**2 + y**2)", file=REV,
+         old="        return (x * y_q - y * x_q) / (x**2 + y**2)", new="        return x * y_q - y * x_q", expect="C08.R9"),
 ]
 NEUTRAL = [
     dict(id="c08-n-r8", canary=True, what="MaxwellElement.h_q: damper column written as a plain assignment", file=MX,
